@@ -408,12 +408,12 @@ def run(chk):
     # directed malformed / boundary string escapes (the made-up-value clause): \u{..} with 0..9 hex digits (more than six is
     # an error, also when the first digits form a valid scalar), surrogates, values above 0x10ffff, unterminated and
     # unknown escapes, \x with one digit -- implementation and model must agree (value or error) on each
-    for _ in range(60):
-        nd = g.r.range(0, 9)
+    for _ in range(160):
+        nd = g.r.choice([0, 1, 2, 4, 5, 6, 6, 7, 7, 7, 8, 8, 9])
         digs = "".join(g.r.choice("0000123456789abcdefABCDEF") for _ in range(nd))
         if g.r.chance(0.4):
             digs = "0" * max(0, nd - 2) + g.r.choice(["41", "e9", "7f", "ac"])[:min(2, nd)]
-        body = g.r.choice(["\\u{%s}" % digs, "x\\u{%s}y" % digs, "\\u{%s" % digs, "\\u%s}" % digs, "\\u{d800}", "\\u{dfff}", "\\u{110000}",
+        body = g.r.choice(["\\u{%s}" % digs, "x\\u{%s}y" % digs, "\\u{%s}" % digs, "x\\u{%s}y" % digs, "\\u{%s}" % digs, "\\u{%s" % digs, "\\u%s}" % digs, "\\u{d800}", "\\u{dfff}", "\\u{110000}",
                            "\\u{10ffff}", "\\x4", "\\x4g", "\\q", "\\", "\\u{ %s}" % digs, "\\U{41}"])
         enc = g.r.choice(["", "", "utf8", "utf16be", "utf32le", "ascii"])
         texts.append(('%s("%s")' % (enc, body)) if enc else '"%s"' % body)
